@@ -19,7 +19,9 @@ IMPORTS = {
     'C02': [('C09', ('C09-R1a', 'C09-R1b', 'C09-R2'), 'a call order the specification forbids is accepted - directly, or because a rejected call left '
              'the writer in a state its order validation then trusts - so the bytes written are not a conformant file'),
             ('C06', ('C06-R4',), 'serialising a tree changes it: the second serialisation of the same tree is no longer the canonical form of '
-             'what the caller built')],
+             'what the caller built'),
+            ('C15', None, 'the writer derives the newline it appends, indents after and declares from these tables: for a spelling of the '
+             'codec name they do not resolve, a byte-order mark stays inside the newline and the bytes written are not the canonical form')],
     'C03': [('C17', None, 'every header line is taken through the read-ahead helper: for files whose lines straddle a chunk boundary the '
              'records differ from what the specification says the file contains'),
             ('C15', None, 'the newline of a section is derived from these tables: indentation / line splitting of well-formed files in the '
